@@ -106,6 +106,9 @@ func (ev *Evaluator) Eval(e ast.Expr) (alts []string, opaque bool) {
 	if s, ok := astx.ConstString(ev.info, e); ok {
 		return []string{s}, false
 	}
+	if ev.ledgerField(e) != "" {
+		return []string{ev.renderValue(e)}, false
+	}
 	switch x := e.(type) {
 	case *ast.BinaryExpr:
 		if x.Op == token.ADD {
@@ -187,7 +190,7 @@ func (ev *Evaluator) Eval(e ast.Expr) (alts []string, opaque bool) {
 					res = product(res, []string{tv.Value.ExactString()})
 				} else {
 					res = product(res, []string{ev.renderValue(arg)})
-					if !knownValue(arg) {
+					if ev.ledgerField(arg) == "" {
 						op = true
 					}
 				}
@@ -228,20 +231,32 @@ func (ev *Evaluator) Eval(e ast.Expr) (alts []string, opaque bool) {
 	return []string{opaqueText(e)}, true
 }
 
-// knownValue: selector paths that denote the ledger id / name are rendered as markers.
-func knownValue(e ast.Expr) bool {
-	p := astx.SelectorPath(e)
-	return strings.HasSuffix(p, "ledger.ID") || strings.HasSuffix(p, "ledger.Name") || strings.HasSuffix(p, "ledger.Bucket")
+// ledgerField recognises x.ID / x.Name / x.Bucket where x is a ledger.Ledger value: these
+// denote the ledger's id, name and bucket and are rendered as the markers the SQL
+// front-end uses for per-ledger templates.
+func (ev *Evaluator) ledgerField(e ast.Expr) string {
+	se, ok := ast.Unparen(e).(*ast.SelectorExpr)
+	if !ok {
+		return ""
+	}
+	t := ev.info.TypeOf(se.X)
+	if t == nil || !astx.IsNamed(t, "github.com/formancehq/ledger/internal", "Ledger") {
+		return ""
+	}
+	switch se.Sel.Name {
+	case "ID", "Name", "Bucket":
+		return se.Sel.Name
+	}
+	return ""
 }
 
 func (ev *Evaluator) renderValue(e ast.Expr) string {
-	p := astx.SelectorPath(e)
-	switch {
-	case strings.HasSuffix(p, "ledger.ID"):
+	switch ev.ledgerField(e) {
+	case "ID":
 		return "<id>"
-	case strings.HasSuffix(p, "ledger.Name"):
+	case "Name":
 		return "<name>"
-	case strings.HasSuffix(p, "ledger.Bucket"):
+	case "Bucket":
 		return "<bucket>"
 	}
 	return opaqueText(e)
